@@ -105,6 +105,7 @@ pub fn run(a: &Args) {
     for v in read_replays(a.req("in")) {
         recs += 1;
         let text = text_of(&v["text"]);
+        note_input(&text);
         let off = v["off"].as_u64().unwrap() as usize;
         let exp = &v["exp"];
         let canplain = exp["canplain"][0] != json!("skip");
